@@ -190,6 +190,10 @@ def replay_known(ctx, known_ids):
             v = [x for x in v if x["property"] == ctx["pid"]]
             still = bool(v)
             why = v[0]["what"] if v else ""
+        elif f.get("expect_silent") is not None:
+            got = i["k"].get("paths", {}).get(f["expect_silent"])
+            still = isinstance(got, list) and len(got) > 0
+            why = f"{f['expect_silent']} reports {got} although no execution is approved"
         elif f.get("expect") is not None:
             # expectation on the implementation output: {"block": b, "key": k, "value_should_be": s}
             e = f["expect"]
@@ -250,6 +254,59 @@ def run_c02(ctx):
                     break
         ctx["cov"]["paths_checked_declaratively"] = n
     generic_run(ctx, cmp_for(keys=None, paths=[]), set(), extra=extra)
+
+
+def run_c03(ctx):
+    """verdict exactness on the enumerated direct-check grid: the detector reports iff some dangerous value of the
+    governed field is approved (decided exactly by the interpreter over the region representatives)"""
+    import avm
+
+    def extra(ctx, results):
+        n = 0
+        for name, text, meta, m, i in results:
+            if meta["stream"] != "micro" or "paths" not in i:
+                continue
+            kind = name.split(":")[1].split("/")[0]
+            if kind == "fee" and "/18446744073709551615/" in name:
+                continue  # known finding D25: `Fee > 2^64-1` (never true) cannot be expressed by an upper bound
+            if kind == "fee":
+                det, fld = "missing-fee-check", "Fee"
+                ints, _ = oracle.program_constants(text)
+                vals = sorted({0, 272000, 272001, 2**64 - 1} | {max(0, c - 1) for c in ints} | set(ints) | {min(2**64 - 1, c + 1) for c in ints})
+                dangerous = [v for v in vals if v > 272000]
+                mk = lambda v: {"Fee": v}
+            elif kind == "addr" and "/RekeyTo/" in name and "/Receiv" not in name:
+                det, fld = "rekey-to", "RekeyTo"
+                dangerous = [("addr", oracle.FRESH)]
+                mk = lambda v: {"RekeyTo": v}
+            elif kind == "oc":
+                continue  # kind-based verdicts are limited by known finding D16
+            else:
+                continue
+            try:
+                prog = avm.Program(text)
+            except Exception:  # pylint: disable=broad-except
+                continue
+            approved_dangerous = False
+            for v in dangerous:
+                txn = {"_index": 0, "Fee": 1000, "RekeyTo": ("addr", avm.ZERO), "CloseRemainderTo": ("addr", avm.ZERO), "AssetCloseTo": ("addr", avm.ZERO),
+                       "Sender": ("addr", "CREATOR"), "Receiver": ("addr", "CREATOR"), "TypeEnum": 1, "OnCompletion": 0, "ApplicationID": 0}
+                txn.update(mk(v))
+                try:
+                    ok, _ = avm.run(prog, {"group": [txn], "index": 0, "creator": "CREATOR"})
+                except avm.Unsupported:
+                    ok = None
+                if ok:
+                    approved_dangerous = True
+            reported = isinstance(i["paths"].get(det), list) and len(i["paths"][det]) > 0
+            n += 1
+            if reported != approved_dangerous:
+                what = "reports a path although no dangerous value is approved" if reported else "is silent although a dangerous value is approved"
+                ctx["violations"].append((f"{name}: {det} {what}", {"kind": "verdict-exactness", "program": text, "detector": det}))
+        ctx["cov"]["exact_verdicts_checked"] = n
+    # full grid for the direct-check prefixes
+    old = sizes
+    generic_run(ctx, cmp_for(keys=None, paths=[], cfg=False), set(), micro_prefixes=["fee", "addr/RekeyTo", "bool", "spell"], extra=extra, known_ids=("D25",))
 
 
 def run_c04(ctx):
@@ -671,9 +728,332 @@ def run_c13(ctx):
     cov["disagreements"] = nd
 
 
+def cli_programs(ctx, n_random):
+    rng = ctx["rng"]
+    progs = [(n, t) for n, t in gen.adversarial_programs() if n not in ("only-pragma",)]
+    for k in range(n_random):
+        t, _ = gen.random_program(rng)
+        progs.append((f"rand{k}", t))
+    return progs
+
+
+def par_map(fn, items, workers=16):
+    from concurrent.futures import ThreadPoolExecutor
+    with ThreadPoolExecutor(max_workers=workers) as ex:
+        return list(ex.map(fn, items))
+
+
+def run_c17(ctx):
+    """every subcommand / printer / output format finishes without an internal error wherever the model says Ok"""
+    import cli
+    cov = ctx["cov"]
+    progs = cli_programs(ctx, 14 if ctx["tier"] == "quick" else 200)
+    reqs = [("analyze", f"p{n}", t, []) for n, (_, t) in enumerate(progs)]
+    m, _i = corr.run_both(reqs)
+    runs = par_map(lambda nt: cli.full_run(nt[1]), progs)
+    ncmd = 0
+    nstruct = 0
+    for n, ((name, text), r) in enumerate(zip(progs, runs)):
+        mm = m[f"p{n}"]
+        model_ok = "err" not in mm and "analysis_err" not in mm and mm.get("structured") is not False
+        paths_ok = all(isinstance(v, list) for v in mm.get("paths", {}).values()) if model_ok else False
+        if not (model_ok and paths_ok):
+            continue   # outside the quantifier (not assembler-valid / unstructured / retsub outside a subroutine)
+        nstruct += 1
+        for cmd, st in r["commands"].items():
+            ncmd += 1
+            if st["traceback"] or st["rc"] not in (0,):
+                ctx["violations"].append((f"{name}: `tealer {cmd}` ended with rc={st['rc']} {'with a traceback' if st['traceback'] else ''}: {st['stderr_tail'][-200:]!r}",
+                                          {"kind": "cli-internal-error", "program": text, "command": cmd}))
+    cov["traces_validated_against_impl"] = ncmd
+    cov["evaluations"] = ncmd
+    cov["distinct_nontrivial"] = nstruct
+    cov["rule"] = "CLI invocations (detect text/JSON/filter, 5 printers) x programs (adversarial layouts + random) for which the model completes without exception; non-trivial = structured program"
+
+
+def run_c18(ctx):
+    """exported DOT files / JSON read back and compared with the model's graph and paths"""
+    import cli
+    cov = ctx["cov"]
+    rng = ctx["rng"]
+    progs = cli_programs(ctx, 14 if ctx["tier"] == "quick" else 200)
+    reqs = [("analyze", f"p{n}", t, []) for n, (_, t) in enumerate(progs)]
+    m, _i = corr.run_both(reqs)
+    filt = [rng.choice(["1", "0 -> 1", "^0 -> 2", "3$", "2 -> [0-9]+ -> 4", "9"]) for _ in progs]
+    runs = par_map(lambda k: cli.full_run(progs[k][1], filter_regex=filt[k]), list(range(len(progs))))
+    nfacts = 0
+    nprog = 0
+    for n, ((name, text), r) in enumerate(zip(progs, runs)):
+        mm = m[f"p{n}"]
+        if "err" in mm or "analysis_err" in mm or mm.get("structured") is False or not all(isinstance(v, list) for v in mm.get("paths", {}).values()):
+            continue
+        nprog += 1
+
+        def bad(msg, **kw):
+            ctx["violations"].append((f"{name}: {msg}", dict({"kind": "export-mismatch", "program": text}, **kw)))
+
+        js = r.get("json")
+        if js is None:
+            bad("JSON output could not be parsed")
+            continue
+        if js.get("success") is not True or js.get("error") is not None:
+            bad(f"JSON success={js.get('success')} error={js.get('error')} on a run without error")
+        for res in js["result"]:
+            det = res["check"]
+            if res.get("type") != "ExecutionPaths" or det not in mm["paths"]:
+                continue
+            exp = [" -> ".join(map(str, p)) for p in mm["paths"].get(det, [])]
+            got = [p["short"] for p in res["paths"]]
+            nfacts += 3
+            if res["count"] != len(res["paths"]):
+                bad(f"JSON count {res['count']} != number of listed paths {len(res['paths'])} for {det}")
+            if got != exp:
+                bad(f"JSON paths of {det} = {got}, internal result = {exp}")
+            blocks = {b["idx"]: b for b in mm["blocks"]}
+            for p, pj in zip(mm["paths"].get(det, []), res["paths"]):
+                expb = [[f"{ln}: {ins}" for ln, ins in zip(blocks[b]["lines"], blocks[b]["ins"])] for b in p if b in blocks]
+                if pj["blocks"] != expb:
+                    bad(f"JSON per-block instruction lists of path {pj['short']} ({det}) differ from the blocks")
+                    break
+            jf = r.get("json_filtered")
+            if jf is not None:
+                rf = [x for x in jf["result"] if x["check"] == det]
+                keep = [s for s in exp if re.search(filt[n], s) is None]
+                gotf = [p["short"] for p in rf[0]["paths"]] if rf else None
+                nfacts += 1
+                if gotf != keep:
+                    bad(f"--filter-paths {filt[n]!r} on {det}: got {gotf}, expected {keep}")
+        # text mode lists the same paths; path DOT files mark exactly the path
+        for key, dot in r.get("path_dots", {}).items():
+            det, fn = key.split("/")
+            k = int(re.search(r"-(\d+)\.dot$", fn).group(1))
+            ps = mm["paths"].get(det, [])
+            if k - 1 >= len(ps):
+                bad(f"{key}: no such path in the internal result")
+                continue
+            red = sorted(nid for nid, v in dot["nodes"].items() if v["color"] == "RED")
+            nfacts += 2
+            if red != sorted(set(ps[k - 1])):
+                bad(f"{key}: marked blocks {red}, path blocks {sorted(set(ps[k - 1]))}")
+            if sorted(dot["nodes"]) != sorted(b["idx"] for b in mm["blocks"]):
+                bad(f"{key}: nodes {sorted(dot['nodes'])} differ from the blocks")
+        # cfg printer
+        cfgdot = [v for k, v in r.get("printer_files", {}).items() if k.endswith("full_cfg.dot")]
+        if cfgdot:
+            d = cli.parse_dot(cfgdot[0])
+            nfacts += 3
+            if sorted(d["nodes"]) != sorted(b["idx"] for b in mm["blocks"]):
+                bad(f"cfg DOT nodes {sorted(d['nodes'])} differ from blocks {sorted(b['idx'] for b in mm['blocks'])}")
+            exp_edges = cli.expected_full_cfg_edges(mm)
+            if d["edges"] != exp_edges:
+                bad(f"cfg DOT edges {d['edges']} differ from the global graph {exp_edges}")
+            for b in mm["blocks"]:
+                src = text.split("\n")
+                exp_rows = [(ln, src[ln - 1].strip()) for ln in b["lines"]]   # the printer shows the source line of each instruction
+                if b["idx"] in d["nodes"] and d["nodes"][b["idx"]]["rows"] != exp_rows:
+                    bad(f"cfg DOT node {b['idx']} shows {d['nodes'][b['idx']]['rows']}, block has {exp_rows}")
+                    break
+        else:
+            bad("cfg printer wrote no full_cfg.dot")
+        # subroutine-cfg: one file per subroutine, one call box per call site
+        for s in mm["subs"]:
+            fs = [v for k, v in r.get("printer_files", {}).items() if k.endswith(f"print-subroutine-cfg/subroutine_{s['name']}_cfg.dot")]
+            nfacts += 1
+            if not fs:
+                bad(f"subroutine-cfg wrote no file for subroutine {s['name']}")
+                continue
+            d = cli.parse_dot(fs[0])
+            blocks = {b["idx"]: b for b in mm["blocks"]}
+            sites = [b for b in s["blocks"] if b in blocks and blocks[b]["ins"][-1].startswith("callsub ")]
+            if sorted(d["nodes"]) != sorted(s["blocks"]):
+                bad(f"subroutine-cfg {s['name']}: nodes {sorted(d['nodes'])} differ from its blocks {sorted(s['blocks'])}")
+            if len(d["boxes"]) != len(sites):
+                bad(f"subroutine-cfg {s['name']}: {len(d['boxes'])} call boxes for {len(sites)} call sites")
+        # call graph
+        cg = [v for k, v in r.get("printer_files", {}).items() if k.endswith("call-graph.dot")]
+        if cg:
+            got_edges = sorted(set(re.findall(r"^\s*\"?([A-Za-z_][\w.]*)\"?\s*->\s*\"?([A-Za-z_][\w.]*)\"?", cg[0], re.M)))
+            blocks = {b["idx"]: b for b in mm["blocks"]}
+            exp = set()
+            for rn in [mm["main"]] + mm["subs"]:
+                for b in rn["blocks"]:
+                    if b in blocks and blocks[b]["ins"][-1].startswith("callsub "):
+                        exp.add((rn["name"], blocks[b]["ins"][-1].split()[1]))
+            nfacts += 1
+            if got_edges != sorted(exp):
+                bad(f"call-graph edges {got_edges} differ from retained call sites {sorted(exp)}")
+    cov["traces_validated_against_impl"] = nfacts
+    cov["evaluations"] = nfacts
+    cov["distinct_nontrivial"] = nprog
+    cov["rule"] = "artefacts (JSON envelope, per-path DOT files, cfg / subroutine-cfg / call-graph DOT files, --filter-paths) of real CLI runs read back and compared with the model's graph and paths; non-trivial = structured program"
+
+
+def run_c14(ctx):
+    """same input => same contexts, ordered paths and JSON bytes whatever the history, detector order or hash seed"""
+    import cli
+    cov = ctx["cov"]
+    rng = ctx["rng"]
+    n = 60 if ctx["tier"] == "quick" else 600
+    progs = []
+    for k in range(n):
+        t, _ = gen.random_program(rng)
+        progs.append(t)
+    progs += [t for _, t in gen.adversarial_programs()]
+    reqs = [("analyze", f"p{k}", t, []) for k, t in enumerate(progs)]
+    # baseline: model (pure function) and implementation, stream order, seed 0
+    m, base = corr.run_both(reqs, shards=8)
+    variants = {
+        "reversed history, hash seed 1": (list(reversed(reqs)), {"PYTHONHASHSEED": "1"}),
+        "shuffled history, hash seed 4242": (rng.sample(reqs, len(reqs)), {"PYTHONHASHSEED": "4242"}),
+        "detectors reversed and re-run, hash seed 7": (reqs, {"PYTHONHASHSEED": "7", "VERIF_DETECTOR_ORDER": "reversed_twice"}),
+        "single long-lived process": (reqs, {"PYTHONHASHSEED": "99", "VERIF_SINGLE": "1"}),
+    }
+    ncmp = 0
+    for vname, (rq, env) in variants.items():
+        shards = 1 if env.get("VERIF_SINGLE") else 8
+        _, got = corr.run_both(rq, shards=shards, impl_env=env)
+        for kind, rid, text, _ in reqs:
+            ncmp += 1
+            a, b = dict(base[rid]), dict(got[rid])
+            # the ORDER of function.blocks is internal (it follows set iteration); the block set is compared
+            for x in (a, b):
+                if "fn_blocks" in x:
+                    x["fn_blocks"] = sorted(x["fn_blocks"])
+                if "err" in x:
+                    x["err"] = corr.norm_err(x)["err"]   # exception texts contain object addresses
+            if json.dumps(a, sort_keys=True) != json.dumps(b, sort_keys=True):
+                diff = [k for k in set(a) | set(b) if a.get(k) != b.get(k)]
+                ctx["violations"].append((f"result of analysing one contract differs under '{vname}' (fields {diff[:4]})",
+                                          {"kind": "history-dependence", "program": text, "variant": vname, "env": env}))
+                break
+    # JSON bytes of the CLI under different hash seeds
+    sample = rng.sample(progs, 6 if ctx["tier"] == "quick" else 40)
+    outs = par_map(lambda t: [cli.full_run(t, hashseed=hs, printers=False)["json_raw"] for hs in ("0", "1", "31337")], sample)
+    for t, o in zip(sample, outs):
+        ncmp += 2
+        if not (o[0] == o[1] == o[2]):
+            ctx["violations"].append(("JSON output bytes differ between PYTHONHASHSEED values", {"kind": "hash-seed-dependence", "program": t}))
+    # correspondence with the (history-free) model
+    nd = 0
+    for kind, rid, text, _ in reqs:
+        d = corr.cmp_ctx(m[rid], base[rid]) + corr.cmp_paths(m[rid], base[rid])
+        if d:
+            nd += 1
+            if nd <= 2:
+                ctx["broken"].append(f"correspondence model/implementation: {d[0][:200]} || program {text!r}")
+    cov["traces_validated_against_impl"] = ncmp
+    cov["evaluations"] = ncmp
+    cov["distinct_nontrivial"] = len(progs)
+    cov["rule"] = "per contract: result under 4 history / detector-order / hash-seed variants compared field by field with the baseline; CLI JSON bytes under 3 hash seeds; distinct = programs"
+    cov["disagreements"] = nd
+
+
+def rewrite_program(rng, text, kind):
+    """meaning-preserving rewrites (C15). returns (new text, line map old->new or None)"""
+    lines = text.split("\n")
+    if kind == "labels":
+        labs = sorted({l.strip()[:-1] for l in lines if l.strip().endswith(":") and " " not in l.strip()}, key=len, reverse=True)
+        ren = {l: f"L_{k}_{l[::-1]}" for k, l in enumerate(labs)}
+        out = []
+        for l in lines:
+            t = l.split()
+            if t and t[0].endswith(":") and t[0][:-1] in ren and len(t) == 1:
+                out.append(ren[t[0][:-1]] + ":")
+            elif t and t[0] in ("b", "bz", "bnz", "callsub") and len(t) == 2 and t[1] in ren:
+                out.append(f"{t[0]} {ren[t[1]]}")
+            elif t and t[0] in ("switch", "match"):
+                out.append(" ".join([t[0]] + [ren.get(x, x) for x in t[1:]]))
+            else:
+                out.append(l)
+        return "\n".join(out), "same"
+    if kind == "comments":
+        out, mp, k = [], {}, 0
+        for n, l in enumerate(lines, 1):
+            if rng.random() < 0.25 and n > 1:
+                out.append(rng.choice(["// note", "", "   ", "\t// x // y"]))
+            out.append((rng.choice(["", "  ", "\t"]) + l + rng.choice(["", "  ", " // c", "\t//"])) if not l.startswith("#pragma") else l)
+            mp[n] = len(out)
+        return "\n".join(out), mp
+    if kind == "ints":
+        out = []
+        for l in lines:
+            t = l.split()
+            if len(t) == 2 and t[0] in ("int", "pushint") and t[1].isdigit():
+                import avm
+                v = avm.parse_int(t[1])
+                sp = rng.choice([str(v), hex(v), ("0" + oct(v)[2:]) if v > 0 else "0"])
+                op = rng.choice(["int", "pushint"])
+                out.append(f"{op} {sp}")
+            elif len(t) == 2 and t[0] == "int" and t[1] in avm_names():
+                out.append(f"int {avm_names()[t[1]]}") if rng.random() < 0.5 else out.append(l)
+            else:
+                out.append(l)
+        return "\n".join(out), "same"
+    if kind == "padding":
+        out, mp = [], {}
+        for n, l in enumerate(lines, 1):
+            out.append(l)
+            mp[n] = len(out)
+            t = l.split()
+            if t and t[0] in ("assert", "pop", "store") and rng.random() < 0.5:
+                out += rng.choice([["int 1", "pop"], ['byte "z"', "pop"], ["load 9", "store 9"]])
+        return "\n".join(out), mp
+    return text, "same"
+
+
+def avm_names():
+    import avm
+    d = dict(avm.TYPE_NAMES)
+    d.update(avm.OC_NAMES)
+    return d
+
+
+def run_c15(ctx):
+    cov = ctx["cov"]
+    rng = ctx["rng"]
+    n = 80 if ctx["tier"] == "quick" else 800
+    reqs, meta = [], {}
+    for k in range(n):
+        t, _ = gen.random_program(rng)
+        reqs.append(("analyze", f"o{k}", t, []))
+        for kind in ("labels", "comments", "ints", "padding"):
+            t2, mp = rewrite_program(rng, t, kind)
+            reqs.append(("analyze", f"r{k}_{kind}", t2, []))
+            meta[f"r{k}_{kind}"] = (f"o{k}", kind, t, t2)
+    m, i = corr.run_both(reqs)
+    ncmp = 0
+    nd = 0
+    for rid, (orig, kind, t, t2) in meta.items():
+        for side, res in (("implementation", i), ("model", m)):
+            a, b = res[orig], res[rid]
+            if "ctx" not in a or "ctx" not in b:
+                if ("ctx" in a) != ("ctx" in b) and a.get("structured") is not False:
+                    ctx["violations"].append((f"rewrite '{kind}' changes whether the {side} completes", {"kind": "rewrite-variance", "program": t, "rewritten": t2, "rewrite": kind}))
+                continue
+            ncmp += 1
+            if a["ctx"] != b["ctx"] or a["paths"] != b["paths"]:
+                what = "contexts" if a["ctx"] != b["ctx"] else "reported paths"
+                if side == "implementation":
+                    ctx["violations"].append((f"rewrite '{kind}' changes the {what}", {"kind": "rewrite-variance", "program": t, "rewritten": t2, "rewrite": kind}))
+                else:
+                    ctx["broken"].append(f"model is not invariant under rewrite '{kind}' ({what}) on {t!r}")
+                break
+        d = corr.cmp_ctx(m[rid], i[rid]) + corr.cmp_paths(m[rid], i[rid])
+        if d:
+            nd += 1
+            if nd <= 2:
+                ctx["broken"].append(f"correspondence model/implementation on rewritten program: {d[0][:200]} || {t2!r}")
+    cov["traces_validated_against_impl"] = ncmp
+    cov["evaluations"] = ncmp
+    cov["distinct_nontrivial"] = n
+    cov["rule"] = "random programs x rewrites (label renaming; comments/blank lines/indentation; decimal/hex/octal + int/pushint + named/numeric constants; stack-neutral padding): contexts per block and ordered paths of original vs rewritten program must be identical (block ids are preserved by these rewrites), on the implementation and on the model"
+    cov["disagreements"] = nd
+
+
 PROPS = {
     "C01": {"run": run_c01},
     "C02": {"run": run_c02},
+    "C03": {"run": run_c03},
     "C04": {"run": run_c04},
     "C05": {"run": run_c05},
     "C06": {"run": run_ctx(key_is("GroupSize", "GroupIndex"), {"C06"}, ["gsize", "gindex", "bool", "spell"], known=("D2", "D12"))},
@@ -684,7 +1064,11 @@ PROPS = {
     "C11": {"run": run_lines(("pop", "push", "cls"))},
     "C12": {"run": run_c12},
     "C13": {"run": run_c13},
+    "C14": {"run": run_c14},
+    "C15": {"run": run_c15},
     "C16": {"run": run_lines(("cls", "str"))},
+    "C17": {"run": run_c17},
+    "C18": {"run": run_c18},
     "C19": {"run": run_lines(("version", "mode", "cost"))},
     "C20": {"run": run_c20},
 }
